@@ -405,7 +405,7 @@ func RunCheck(o CheckOpts) int {
 	assum = append(assum,
 		"tool chain: go/packages, go/types, go/ssa (x/tools v0.29.0) give a faithful SSA of the source; z3/cvc5 are sound for unsat; the VC generator govc itself",
 		"integers are mathematical (no wrap-around); float64 is modelled as exact reals (no rounding, no NaN/Inf)",
-		"strings are an uninterpreted sort with length/concat axioms; distinct literals are distinct",
+		"strings are an uninterpreted sort with length/concat axioms (length of a concatenation, substring and byte-at over a concatenation, left cancellation a++b = a++c => b = c, the leading decimal of itoa(n)++t is n when t does not start with a digit); distinct literals are distinct; per VC: length and first byte of each literal, litA++litB = litAB and literal prefixes as ground facts",
 		"no allocation failure or stack exhaustion; single-threaded execution within one call",
 		"fresh memory is zero and unreachable from pre-existing objects (allocation counter model)")
 	var fnNames []string
@@ -518,7 +518,12 @@ func (g *Gen) CoverChecks(header string, results []*FnResult, outDir string, par
 			defer func() { <-sem; done <- i }()
 			file := filepath.Join(outDir, sanitizeFile(j.name)+".smt2")
 			os.WriteFile(file, []byte(j.text), 0o644)
-			st, _, _ := runSolver(solvers[0], file, 2)
+			// two instantiation strategies, 1 s each: a contradiction among quantified assumptions that E-matching
+			// finds in a fraction of a second can take the default (MBQI) configuration far longer, and vice versa
+			st, _, _ := runSolver(z3NoMBQI, file, 1)
+			if st != "unsat" {
+				st, _, _ = runSolver(solvers[0], file, 1)
+			}
 			out[i] = CoverResult{Name: j.name, OK: st != "unsat", Detail: "path condition and assumptions: " + st}
 		}(i, j)
 	}
